@@ -568,3 +568,9 @@ package quickfix
 //@   loop 1 invariant @winB inwindow(mp.msg.Body.FieldMap, mp.msg.fields, mp.fieldIndex)
 //@   loop 1 invariant @winT inwindow(mp.msg.Trailer.FieldMap, mp.msg.fields, mp.fieldIndex)
 //@   loop 1 decreases len(mp.rawBytes)
+
+// ---- settings.go ---------------------------------------------------------------------------------
+//@ func ParseSettings [C09]
+//@   requires reader != nil
+//@   modifies *
+//@   loop 1 invariant @inited s != nil && s.sessionSettings != nil && s.globalSettings != nil && blankRegEx != nil && commentRegEx != nil && defaultRegEx != nil && sessionRegEx != nil && settingRegEx != nil && scanner != nil && nsub(settingRegEx) == 2
